@@ -29,6 +29,8 @@ package pogreb
 // by what was picked so far. Fragmentation is floating point and is not interpreted: both outcomes are explored.
 //@ func (db *DB) pickForCompaction() (segs []*segment) [C05]
 //@   requires inv: db != nil && db.opts != nil && db.datalog != nil && dlInv(db.datalog)
+//@   ensures [C05,C15] members: len(segs) >= 0 && forall q int :: off(segs) <= q && q < off(segs) + len(segs) ==> contents(segs)[q] != nil && contents(segs)[q].id < 32767 && db.datalog.segments[contents(segs)[q].id] == contents(segs)[q]
+//@   ensures [C05,C15] distinct: forall q1 int, q2 int :: off(segs) <= q1 && q1 < q2 && q2 < off(segs) + len(segs) ==> contents(segs)[q1] != contents(segs)[q2]
 //@   at return: assert [C05] delete-records-only-with-all-older: forall q int :: off(picked) <= q && q < off(picked) + len(picked) ==> contents(picked)[q].meta.DeleteRecords == 0
 //@   at return: assert [C05] older-prefix-whole: len(segs) == len(picked) || (0 <= i && i < len(segments) && len(segs) == i + 1 + len(picked) && forall q int :: 0 <= q && q <= i ==> segs[q] == segments[q])
 //@   modifies elems(*segment)
@@ -38,4 +40,25 @@ package pogreb
 //@     invariant forall q int :: off(segments) <= q && q < off(segments) + len(segments) ==> contents(segments)[q] != nil && contents(segments)[q].id < 32767 && db.datalog.segments[contents(segments)[q].id] == contents(segments)[q]
 //@     invariant forall q int :: off(picked) <= q && q < off(picked) + len(picked) ==> contents(picked)[q] != nil && contents(picked)[q].id < 32767 && db.datalog.segments[contents(picked)[q].id] == contents(picked)[q] && contents(picked)[q].meta.DeleteRecords == 0
 //@     invariant (len(segments) == 0 || fresh(segments)) && ((arr(picked) == 0 && cap(picked) == 0) || fresh(picked)) && (arr(picked) == 0 || arr(picked) != arr(segments))
+//@     invariant forall q1 int, q2 int :: off(segments) <= q1 && q1 < q2 && q2 < off(segments) + len(segments) ==> contents(segments)[q1] != contents(segments)[q2]
+//@     invariant forall q1 int, q2 int :: off(picked) <= q1 && q1 < q2 && q2 < off(picked) + len(picked) ==> contents(picked)[q1] != contents(picked)[q2]
+//@     invariant forall q int, j int :: off(picked) <= q && q < off(picked) + len(picked) && off(segments) <= j && j <= off(segments) + i ==> contents(picked)[q] != contents(segments)[j]
 //@     decreases i + 1
+
+// DB.Compact: sequential protocol. The maintenance lock is held for the whole run (Backup takes the same lock, so the
+// two never overlap) and every compact() call is made on a segment that is still in the table: the picked segments
+// are pairwise distinct, and compacting one leaves the others in place. The count it reports is the number of
+// compact() calls that returned nil. What writers do between two compact() calls is not decided.
+//@ func (db *DB) Compact() (cr CompactionResult, err error) [C05,C12,C15]
+//@   requires inv: dbFull(db)
+//@   requires unlocked: lockSt[fieldaddr(db, mu)] == 0 && lockSt[fieldaddr(db, maintenanceMu)] == 0
+//@   ensures inv: err == nil ==> dbFull(db)
+//@   ensures unlocked: lockSt[fieldaddr(db, mu)] == 0 && lockSt[fieldaddr(db, maintenanceMu)] == 0
+//@   at call compact@1: assert [C12,C15] maintenance-lock-held: lockSt[fieldaddr(db, maintenanceMu)] == 2
+//@   at return: assert [C15] reports-what-it-compacted: err == nil && cr.CompactedSegments != 0 ==> cr.CompactedSegments == len(segments)
+//@   modifies *
+//@   loop 1:
+//@     invariant db == old(db) && dbFull(db) && lockSt[fieldaddr(db, mu)] == 0 && lockSt[fieldaddr(db, maintenanceMu)] == 2
+//@     invariant -1 <= rangeindex#1 && rangeindex#1 < len(segments) && cr.CompactedSegments == rangeindex#1 + 1
+//@     invariant forall q int :: off(segments) + rangeindex#1 < q && q < off(segments) + len(segments) ==> contents(segments)[q] != nil && contents(segments)[q].id < 32767 && db.datalog.segments[contents(segments)[q].id] == contents(segments)[q]
+//@     invariant forall q1 int, q2 int :: off(segments) <= q1 && q1 < q2 && q2 < off(segments) + len(segments) ==> contents(segments)[q1] != contents(segments)[q2]
